@@ -8,7 +8,7 @@ import (
 )
 
 // Schema-bearing keywords as holders ("items[]" = tuple member).
-var HolderKw = []string{"properties", "patternProperties", "definitions", "items", "items[]", "additionalProperties", "additionalItems", "allOf", "anyOf", "oneOf", "not"}
+var HolderKw = []string{"properties", "patternProperties", "definitions", "items", "items[]", "additionalProperties", "additionalItems", "additionalItems-alone", "allOf", "anyOf", "oneOf", "not"}
 
 var Containers = []string{"definition", "sharedParam", "sharedResponse", "opParam", "pathParam", "defaultResponse", "codeResponse"}
 
@@ -32,6 +32,9 @@ func Wrap(kw string, depth int, leaf jx.Obj, key string) jx.Obj {
 			cur = jx.Obj{"type": "object", "description": d, "additionalProperties": cur}
 		case "additionalItems":
 			cur = jx.Obj{"type": "array", "description": d, "items": jx.Arr{jx.Obj{"type": "string"}}, "additionalItems": cur}
+		case "additionalItems-alone":
+			// the keyword on its own, without "items"
+			cur = jx.Obj{"description": d, "additionalItems": cur}
 		case "allOf", "anyOf", "oneOf":
 			cur = jx.Obj{"description": d, kw: jx.Arr{jx.Obj{"type": "object", "properties": jx.Obj{"z": jx.Obj{"type": "string"}}}, cur}}
 		case "not":
